@@ -41,44 +41,53 @@ def interior_expect(before, op):
     return rng, {k for k in rng if cl[k] != m}
 
 
+def interior_eval(ln, o):
+    """-> (deviation or None, monotone?, clusters of the range, level)"""
+    tr = bufgen.parse_trace(o) if o.startswith("ok r=") else None
+    if tr is None:
+        return f"crash {o[:120]}", None, [], None
+    rets, states = tr
+    ops = [x.strip() for x in ln.split(" ; ")[1:]]
+    st0 = bufgen.parse_state(ln.split(" ; ")[0].split(" ", 1)[1])
+    before = states[-2] if len(states) > 1 else st0
+    after = states[-1]
+    rng, want = interior_expect(before, ops[-1])
+    rcl = [before[a][i][2] for a, i in rng]
+    is_mono = all(x <= y for x, y in zip(rcl, rcl[1:])) or all(x >= y for x, y in zip(rcl, rcl[1:]))
+    got = set()
+    frame_ok = True
+    for a in ("I", "U"):
+        for i, (x, y) in enumerate(zip(before[a], after[a])):
+            if x == y: continue
+            if (x[0], x[2], x[3], x[4]) != (y[0], y[2], y[3], y[4]) or y[1] != x[1] | 3:
+                frame_ok = False
+            got.add((a, i))
+    # glyphs that already carried both bits cannot be told apart from untouched ones: compare on the rest
+    pre = {k for k in rng if before[k[0]][k[1]][1] & 3 == 3}
+    d = None
+    if not frame_ok:
+        d = "something other than `mask |= BREAK|CONCAT` was written"
+    elif is_mono:
+        if got != want - pre:
+            d = f"flagged {sorted(got)} but the glyphs outside the minimum cluster are {sorted(want - pre)}"
+    elif not got <= set(rng):
+        d = f"glyphs outside the range were flagged: {sorted(got - set(rng))}"
+    return d, is_mono, rcl, before["L"]
+
+
 def interior_search(ctx, shim, r, n):
     cases = [interior_case(r) for _ in range(n)]
     lines = [c[0] for c in cases]
     outs = vlib.run_lines(shim, lines)
     bad, nontriv, dist = [], 0, {}
     for (ln, mono), o in zip(cases, outs):
-        tr = bufgen.parse_trace(o.replace("ok r=", "ok r=", 1)) if o.startswith("ok r=") else None
-        if tr is None:
-            bad.append((len(ln), ln, f"crash {o[:120]}", o)); continue
-        rets, states = tr
-        ops = [x.strip() for x in ln.split(" ; ")[1:]]
-        st0 = bufgen.parse_state(ln.split(" ; ")[0].split(" ", 1)[1])
-        before = states[-2] if len(states) > 1 else st0
-        after = states[-1]
-        rng, want = interior_expect(before, ops[-1])
-        rcl = [before[a][i][2] for a, i in rng]
-        is_mono = all(x <= y for x, y in zip(rcl, rcl[1:])) or all(x >= y for x, y in zip(rcl, rcl[1:]))
-        got = set()
-        frame_ok = True
-        for a in ("I", "U"):
-            for i, (x, y) in enumerate(zip(before[a], after[a])):
-                if x == y: continue
-                if (x[0], x[2], x[3], x[4]) != (y[0], y[2], y[3], y[4]) or y[1] != x[1] | 3:
-                    frame_ok = False
-                got.add((a, i))
-        # glyphs that already carried both bits cannot be told apart from untouched ones: compare on the rest
-        pre = {k for k in rng if before[k[0]][k[1]][1] & 3 == 3}
-        key = f"L{before['L']}:{'mono' if is_mono else 'nonmono'}"
-        dist[key] = dist.get(key, 0) + 1
-        if len(set(rcl)) > 1: nontriv += 1
-        if not frame_ok:
-            bad.append((len(ln), ln, "something other than `mask |= BREAK|CONCAT` was written", o)); continue
-        if is_mono:
-            if got != want - pre:
-                bad.append((len(ln), ln, f"flagged {sorted(got)} but the glyphs outside the minimum cluster are {sorted(want - pre)}", o))
-        else:
-            if not got <= set(rng):
-                bad.append((len(ln), ln, f"glyphs outside the range were flagged: {sorted(got - set(rng))}", o))
+        d, is_mono, rcl, lvl = interior_eval(ln, o)
+        if is_mono is not None:
+            key = f"L{lvl}:{'mono' if is_mono else 'nonmono'}"
+            dist[key] = dist.get(key, 0) + 1
+            if len(set(rcl)) > 1: nontriv += 1
+        if d:
+            bad.append((len(ln), ln, d, o))
     bad.sort()
     for _, ln, d, o in bad[:3]:
         ctx.violation(f"unsafe_to_break does not flag exactly the glyphs outside the minimum cluster: {d}",
@@ -177,8 +186,8 @@ def run(ctx):
                          + [interior_case(r)[0] for _ in range(ctx.budget(10000, 200000))],
                    classify=F.classify_walk, canon=F.canon_panic)
     interior_search(ctx, shim, ctx.rng("interior"), ctx.budget(20000, 300000))
-    break_search(ctx, shim, ctx.rng("break-ot"), ctx.budget(20, 300), pc, pt, False, "break-safety-ot")
-    break_search(ctx, shim, ctx.rng("break-aat"), ctx.budget(60, 1500), pc, pt, True, "break-safety-aat")
+    break_search(ctx, shim, ctx.rng("break-ot"), ctx.budget(60, 1200), pc, pt, False, "break-safety-ot")
+    break_search(ctx, shim, ctx.rng("break-aat"), ctx.budget(150, 4000), pc, pt, True, "break-safety-aat")
 
 
 def replay(ctx, rp):
@@ -192,10 +201,15 @@ def replay(ctx, rp):
         print("pieces :", F.fmt_glyphs(o.get("recon") or []))
         print("difference:", o.get("diff"))
         return 1 if o["status"] in ("DIFF", "piecefail", "noresult") else 0
+    if rp.get("stream") == "interior-exact":
+        o = vlib.run_lines(shim, [rp["request"]], nproc=1)[0]
+        d = interior_eval(rp["request"], o)[0]
+        print("request:", rp["request"]); print("reply  :", o[-1500:]); print("deviation:", d)
+        return 1 if d else 0
     if "request" in rp:
         model = vlib.build_model()
         a = vlib.run_lines(shim, [rp["request"]], nproc=1)[0]
         b = vlib.run_lines(model, [rp["request"]], nproc=1)[0]
         print("impl :", a[:3000]); print("model:", b[:3000])
-        return 0 if F.canon_panic(a) == b and rp.get("stream") != "interior-exact" else 1
+        return 0 if F.canon_panic(a) == b else 1
     print(rp); return 1
